@@ -54,6 +54,9 @@ def run_case(case):
     its = {}
 
     def observe(runner, tg, trie, model):
+        # an earlier version of the trie, for the interleaved walks below (non-pruning: its nodes stay in the database)
+        if tg == "0" and not case["prune"] and len(model) >= 2 and "old" not in its:
+            its["old"] = (trie.root_hash, dict(model))
         # one NodeIterator object reused between mutations
         it0 = its.setdefault("it", NodeIterator(trie))
         try:
@@ -142,6 +145,33 @@ def run_case(case):
             if nk != want:
                 res.fail("next-wrong", "next(%r) = %r, the smallest stored key greater than it is %r (keys %r)" % (k, nk, want, skeys))
             res.tags.add("next:" + ("none" if want is None else ("stored-arg" if k in model else "absent-arg")))
+    # two walks advanced alternately (generators are lazy: callers may interleave them): the walk over an earlier version of
+    # the trie and the walk over the current one must each yield their own trie's pairs / nodes
+    if "old" in its and its["old"][0] != trie.root_hash:
+        import itertools
+        from trie import HexaryTrie
+        oroot, omodel = its["old"]
+        old = HexaryTrie(r.db, oroot)
+        try:
+            pairs = list(itertools.zip_longest(NodeIterator(old).items(), NodeIterator(trie).items()))
+            a = [x for x, _ in pairs if x is not None]
+            b = [y for _, y in pairs if y is not None]
+            if a != sorted(omodel.items()) or b != [(k, model[k]) for k in skeys]:
+                res.fail("interleaved-walks-wrong", "two items() walks advanced alternately: the older version yields %r (holds %r), the "
+                         "current one %r (holds %r)" % (a, sorted(omodel.items()), b, [(k, model[k]) for k in skeys]))
+            npairs = list(itertools.zip_longest(NodeIterator(old).nodes(), NodeIterator(trie).nodes()))
+            for tr, side in ((old, 0), (trie, 1)):
+                for ent in npairs:
+                    if ent[side] is None:
+                        continue
+                    prefix, node = ent[side]
+                    if hexlib.fmt_ann(node) != hexlib.fmt_ann(tr.traverse(prefix)):
+                        res.fail("interleaved-walks-wrong", "two nodes() walks advanced alternately: node at %s differs from traverse()"
+                                 % nibstr(prefix))
+                        break
+            res.tags.add("interleaved-walks")
+        except Exception as e:  # noqa
+            res.fail("iterator-raised", "interleaved walks raised %r" % (e,))
     res.nontrivial = len(model) >= 2
     res.state_key = common.sha(sorted((k.hex(), v.hex()) for k, v in model.items()))
     return res
